@@ -458,6 +458,12 @@ impl Universe {
         }
         Universe { name: "Urep={x,y}a^k[b]", words }
     }
+    /// every word over `alpha` of length 1..=k (used as SINGLE test cases)
+    pub fn words(alpha: &[&str], k: usize) -> Vec<String> {
+        let mut w = words_upto(alpha, k);
+        w.retain(|x| !x.is_empty());
+        w
+    }
     pub fn u4() -> Universe {
         Universe { name: "U4={a,b}^<=4", words: words_upto(&["a", "b"], 4) }
     }
